@@ -31,6 +31,35 @@ def s_item_save(eng, path, argv, callee):
     return enum_obj(0, 'Ok', Obj('unit'))
 
 
+def s_item_update(eng, path, argv, callee):
+    """`Item::update(storage, closure)`: load, run the closure's MIR body on the loaded value, save its Ok result.
+    Supported for closures with exactly one returning path (straight-line updates)."""
+    ty = item_type(callee)
+    m = re.search(r'\{closure@([^}]*)\}', callee)
+    if not m:
+        raise Unsupported('Item::update without a closure: ' + callee[:80])
+    fn = None
+    for mod in eng.modules:
+        mm = re.search(r'^fn (\S+)\(_1: \{closure@' + re.escape(m.group(1)) + r'\}', mod.text, re.M)
+        if mm:
+            fn = mod.get(mm.group(1))
+            break
+    if fn is None or not fn.blocks:
+        raise Unsupported('closure body of Item::update not found: ' + m.group(1))
+    subs = eng.run_fn(fn, path, [argv[2], Obj('pre:' + ty)], 1)
+    if len(subs) != 1 or subs[0][0] is not path:
+        raise Unsupported('closure of Item::update has %d returning paths' % len(subs))
+    rv = subs[0][1]
+    d = z3.simplify(rv.disc())
+    if not (z3.is_int_value(d) and d.as_long() == 0):
+        raise Unsupported('closure of Item::update does not return a constant Ok')
+    new = rv.get(('as', 'Ok')).get(0)
+    path.effects.append(('save', ty, new.clone()))
+    pay = Obj('p%d' % next(Obj.cnt))
+    pay.fields[0] = new
+    return enum_obj(0, 'Ok', pay)
+
+
 def map_types(callee):
     m = re.search(r"Map::<(.*)>::(load|save|may_load|remove|update)", callee)
     return norm_type(m.group(1)) if m else '?'
@@ -328,6 +357,7 @@ BASE = [
     (r'Option::<.*>::ok_or_else::<|Option::<.*>::ok_or::<', s_ok_or),
     (r'Item::<.*>::load$', s_item_load),
     (r'Item::<.*>::save$', s_item_save),
+    (r'Item::<.*>::update::<', s_item_update),
     (r'Map::<.*>::load$', s_map_load),
     (r'Map::<.*>::save$', s_map_save),
     (r'as std::ops::Try>::branch$', s_branch),
